@@ -9,7 +9,9 @@ import (
 	"verif/engine/shard"
 	"verif/props/c09"
 	"verif/props/c10"
+	"verif/props/c11"
 	"verif/props/c12"
+	"verif/props/c13"
 )
 
 type prop struct {
@@ -20,7 +22,9 @@ type prop struct {
 var props = map[string]prop{
 	"C09": {"model_checking", c09.Run},
 	"C10": {"model_checking", c10.Run},
+	"C11": {"model_checking", c11.Run},
 	"C12": {"model_checking", c12.Run},
+	"C13": {"model_checking", c13.Run},
 }
 
 func main() {
